@@ -7,6 +7,9 @@ import (
 
 	"github.com/btcsuite/btcd/btcec/v2"
 	"github.com/btcsuite/btcd/btcec/v2/schnorr"
+	"github.com/btcsuite/btcd/btcutil"
+	"github.com/btcsuite/btcd/chaincfg"
+	"github.com/btcsuite/btcd/txscript"
 	"github.com/btcsuite/btcd/chaincfg/chainhash"
 	"github.com/btcsuite/btcd/wire"
 	relayertypes "github.com/goatnetwork/goat/x/relayer/types"
@@ -173,4 +176,28 @@ func (c *BtcChain) MineEmpty(n int) []*BtcBlock {
 		out = append(out, c.Mine([]*wire.MsgTx{c.CoinbaseTx(c.Tip + 1)}))
 	}
 	return out
+}
+
+// SystemScript is the change/consolidation script of a relayer key, built by hand.
+func SystemScript(key *relayertypes.PublicKey) []byte {
+	switch k := key.Key.(type) {
+	case *relayertypes.PublicKey_Secp256K1:
+		return append([]byte{0x00, 0x14}, btcutil.Hash160(k.Secp256K1)...)
+	case *relayertypes.PublicKey_Schnorr:
+		pub, err := schnorr.ParsePubKey(k.Schnorr)
+		if err != nil {
+			panic(err)
+		}
+		return append([]byte{0x51, 0x20}, schnorr.SerializePubKey(txscript.ComputeTaprootKeyNoScript(pub))...)
+	}
+	return nil
+}
+
+// P2WPKH returns a regtest pay-to-witness-pubkey-hash address and its script for a 20-byte hash.
+func P2WPKH(h20 []byte, net *chaincfg.Params) (string, []byte) {
+	a, err := btcutil.NewAddressWitnessPubKeyHash(h20, net)
+	if err != nil {
+		panic(err)
+	}
+	return a.EncodeAddress(), append([]byte{0x00, 0x14}, h20...)
 }
